@@ -183,7 +183,7 @@ def gen_fiber(rng, uid, *, length=None, whole_km=False, allow_none_con=True, max
         params['con_in'] = pick(rng, [0, 0.5, 0.3, 1.0])
         params['con_out'] = pick(rng, [0, 0.5, 0.4, 1.0])
     if rng.random() < 0.3:
-        params['pmd_coef'] = pick(rng, [3e-15, 1e-15, 2.5e-15])
+        params['pmd_coef'] = pick(rng, [3e-15, 1e-15, 2.5e-15, 0])     # (0: a fibre without PMD, stated as such)
     if per_freq_loss:
         base = params.pop('loss_coef')
         params['loss_coef'] = {'value': [round(base + 0.02, 4), round(base, 4), round(base + 0.01, 4),
